@@ -1,5 +1,7 @@
 import CwMt.Proofs.Engine
 import CwMt.Proofs.EngineObs
+import CwMt.Proofs.EngineTx
+import CwMt.Proofs.TxSites
 /-
   C02 — A failed sub-message leaves no trace; caught only if reply_on says so.
   Model: `executeSubmsg`, `processResponse`, `reply` of CwMt/Model/Engine.lean. All statements hold
@@ -93,5 +95,47 @@ theorem failed_subs_indistinguishable (cfg : Config E) (blk : Block) (fuel : Nat
     (executeSubmsg cfg blk (fuel + 1) ch contract sm tr).1 =
       (executeSubmsg cfg blk (fuel + 1) ch contract sm' tr).1 :=
   EngineObs.failed_subs_indistinguishable cfg blk fuel ch contract sm sm' tr tr₁ tr₁' hid hp hr h h'
+
+/-! ### the same facts for the engine with in-place writes (`CwMt/Model/EngineTx.lean`) -/
+
+/-- Every function of the imperative engine, at every depth, agrees with its value-semantics twin on
+outcome, trace and — when it succeeds — state; what a failing one leaves in its storage never matters
+to anything above the nearest `transactional`. -/
+theorem imperative_refines (cfg : Config E) (d : Dirt E) (blk : Block) (fuel : Nat) (ch : Chain E) (tr : Trace) :
+    (∀ sender m, (executeI cfg d blk fuel ch sender m tr).forget = execute cfg blk fuel ch sender m tr) ∧
+    (∀ c resp msgs, (processResponseI cfg d blk fuel ch c resp msgs tr).forget
+        = processResponse cfg blk fuel ch c resp msgs tr) ∧
+    (∀ c sm, (executeSubmsgI cfg d blk fuel ch c sm tr).forget = executeSubmsg cfg blk fuel ch c sm tr) ∧
+    (∀ c rp, (replyI cfg d blk fuel ch c rp tr).forget = reply cfg blk fuel ch c rp tr) :=
+  EngineTx.refines cfg d blk fuel ch tr
+
+/-- A sub-message that fails after writing — `chDirty` is what its cache showed when it gave up, at
+whatever depth — is followed by a reply handler (or an error return) that sees exactly `ch`, the
+dispatcher's storage as it was when the sub-message was dispatched. -/
+theorem imperative_failed_sub_discarded (cfg : Config E) (d : Dirt E) (blk : Block) (fuel : Nat) (ch chDirty : Chain E)
+    (contract : Addr) (sm : SubMsg) (tr tr₁ : Trace)
+    (h : executeI cfg d blk fuel ch contract sm.msg tr = (.err, chDirty, tr₁)) :
+    executeSubmsgI cfg d blk (fuel + 1) ch contract sm tr =
+      (if wantsReplyOnErr sm.replyOn then replyI cfg d blk fuel ch contract ⟨sm.id, sm.payload, .err⟩ tr₁
+       else (.err, ch, tr₁)) :=
+  EngineTx.failed_sub_discarded cfg d blk fuel ch chDirty contract sm tr tr₁ h
+
+/-- A sub-message that succeeds is committed into the dispatcher's storage, and stays there even if
+the dispatcher's reply handler then fails: the failure travels upwards with that state, to be dropped by
+the next enclosing `transactional` (an outer sub-message, or the entry point). -/
+theorem imperative_committed_then_reply_fails (cfg : Config E) (d : Dirt E) (blk : Block) (fuel : Nat)
+    (ch ch₁ ch₂ : Chain E) (contract : Addr) (sm : SubMsg) (tr tr₁ tr₂ : Trace) (r : AppResponse)
+    (h : executeI cfg d blk fuel ch contract sm.msg tr = (.ok r, ch₁, tr₁))
+    (hw : wantsReplyOnOk sm.replyOn = true)
+    (hr : replyI cfg d blk fuel ch₁ contract ⟨sm.id, sm.payload, .ok r.events r.data⟩ tr₁ = (.err, ch₂, tr₂)) :
+    executeSubmsgI cfg d blk (fuel + 1) ch contract sm tr = (.err, ch₂, tr₂) :=
+  EngineTx.committed_then_reply_fails cfg d blk fuel ch ch₁ ch₂ contract sm tr tr₁ tr₂ r h hw hr
+
+/-- Tie to the sources (regenerated on every run by checklib/tr_tx.py): non-test code of app.rs / wasm.rs
+creates write caches at exactly the places where `CwMt/Model/EngineTx.lean` has `transactionalI` — the three
+entry points, once around every sub-message (with both `reply` calls outside, on the dispatcher's storage)
+and once around every contract call (the querier reading the storage beneath). -/
+theorem tx_sites_as_modelled : Gen.Tx.sites = expectedTxSites :=
+  TxSites.sites_as_modelled
 
 end CwMt.C02
